@@ -164,10 +164,10 @@ Print Assumptions regexp_reread.
    continuations), identifiers + keywords + private identifiers (ASCII, Unicode letters, \u escapes,
    ZWNJ/ZWJ), template literals with nested substitutions to any depth (heads, middles, tails, braces
    and parentheses inside substitutions: step_state is the specification of the level bookkeeping),
-   multi-line comments, single-line "//" comments (followed by LF or CR), whitespace (incl. non-ASCII
-   spaces) and line terminators (LF, CR, CRLF, U+2028, U+2029).
+   multi-line comments, single-line "//" and "<!--" comments (followed by LF or CR), whitespace (incl.
+   non-ASCII spaces) and line terminators (LF, CR, CRLF, U+2028, U+2029).
    seq_ok false 0 [] ts: every (type, text) of ts is a token of one of these classes (it lexes on its
-   own to exactly that token: relexes; a comment text starts with "/*" or "//"; a template
+   own to exactly that token: relexes; a comment text starts with "/*", "//" or "<!--"; a template
    continuation "}body${" / "}body`" is one whose head "`body${" / "`body`" is a TemplateStart /
    Template token and that arrives where a template is waiting at the current brace level), contains
    no truncated multi-byte sequence, is followed — by the next token's first byte, or by the end of
@@ -175,7 +175,7 @@ Print Assumptions regexp_reread.
    otherwise merge", in a sufficient form; closed tokens accept any follower), and no identifier
    directly follows a numeric literal.  Then Next returns exactly these types and texts, in order,
    and ends at the end of input.
-   MISSING (covered by correspondence and the Go oracle only): HTML-like comments, "//" comments
+   MISSING (covered by correspondence and the Go oracle only): "-->" comments, single-line comments
    ended by U+2028/U+2029 or the end of input, regular expressions inside sequences (see
    regexp_reread); followers that are safe but not in stop_for (e.g. '+' directly followed by '!'). *)
 Theorem jslex_token_sequences_partial :
